@@ -168,6 +168,9 @@ def _main(a, seed, t_start):
     opts = {'smt2': thorough, 'smt2_dir': smt2_dir, 'timeout_ms': 60000 if thorough else 10000,
             'tier': a.tier, 'seed': seed, 'prop': prop}
     tasks = [(k, n, opts) for (k, n) in spec.units()]
+    heavy = ('ContentHeader.unmarshal', 'unmarshal(g)[ContentHeader]', 'BasicProperties.', '_unmarshal_header_frame',
+             '[Connection.Start', '[Exchange.', '[Queue.', '[Basic.Consume', 'c02_', '[Basic.')
+    tasks.sort(key=lambda t: next((i for i, h in enumerate(heavy) if h in t[1]), len(heavy)))   # longest first
     if a.only:
         tasks = [t for t in tasks if a.only in t[1]]
     ctx = multiprocessing.get_context('fork')
